@@ -456,7 +456,17 @@ pub fn register_upvalue<T>(
     if is_local {
         // the captured local lives in the frame of the function that creates the closure
         let offset = stack_offset(vm);
-        let location = &vm.runtime_data.value_stack.as_slice()[offset + index as usize];
+        // a local that was declared but not assigned on this path has no slot yet
+        let location = vm
+            .runtime_data
+            .value_stack
+            .as_slice()
+            .get(offset + index as usize)
+            .ok_or_else(|| {
+                ExecutionErrorPayload::invalid_argument(
+                    "The captured variable has not been assigned yet",
+                )
+            })?;
         let location = (location as *const Value).cast_mut();
         unsafe {
             // look for an existing upvalue to the same location
